@@ -12,7 +12,7 @@ NOTE = ('theorems are about coq/Float/Lsh.v (trees with an oracle for the random
         'under vm_compute')
 
 
-def build_collection(rng, n, dim, q, metric, seed, churn):
+def build_collection(rng, n, dim, q, metric, seed, churn, scenario=None):
     """returns (SearchCase, list of op records). Each op is followed by 'forest' (and the first by nothing else)."""
     c = SearchCase(dim, q, metric, seed)
     ops = []
@@ -61,6 +61,34 @@ def build_collection(rng, n, dim, q, metric, seed, churn):
             c.add(id_, v, b'new')
             ops.append(('add', id_, v))
         c.cmds.append('forest')
+    if scenario == 'refill':
+        # remove every document of the open collection, then fill it again without reopening
+        for id_ in sorted(c.docs):
+            c.rm(id_)
+            ops.append(('rm', id_, None))
+            c.cmds.append('forest')
+        for k in range(rng.choice([3, 8, 20])):
+            id_ = 1000 + k
+            v = rand_vec(rng, dim, q)
+            c.add(id_, v, b'refill')
+            ops.append(('add', id_, v))
+            c.cmds.append('forest')
+    elif scenario == 'same_vector':
+        # write an existing document again with the very same vector, remove it, keep adding
+        for id_ in rng.sample(sorted(c.docs), min(3, len(c.docs))):
+            v = list(c.docs[id_][0])
+            c.add(id_, v, b'again')
+            ops.append(('add', id_, v))
+            c.cmds.append('forest')
+            c.rm(id_)
+            ops.append(('rm', id_, None))
+            c.cmds.append('forest')
+        for k in range(5):
+            id_ = 2000 + k
+            v = rand_vec(rng, dim, q)
+            c.add(id_, v, b'later')
+            ops.append(('add', id_, v))
+            c.cmds.append('forest')
     return c, ops
 
 
@@ -107,7 +135,7 @@ def check(prop, tier, seed, replay=None):
     rng = random.Random(seed * 1000003 + (71 if prop == 'C04' else 73))
     path = os.path.join(WORK, 'data', 'lsh_%s_%d.dat' % (prop, os.getpid()))
     os.makedirs(os.path.dirname(path), exist_ok=True)
-    ncoll = (6 if tier == 'quick' else 120)
+    ncoll = (8 if tier == 'quick' else 120)
     nviol = 0
     corr = None
     stats = {'collections': 0, 'operations': 0, 'splits_seen': 0, 'max_tree_depth': 0, 'searches': 0, 'emptied': 0, 'steps_checked_in_model': 0,
@@ -121,7 +149,13 @@ def check(prop, tier, seed, replay=None):
         q = rng.choice([4, 8, 16, 32, 64])
         metric = rng.randint(0, 1)
         n = rng.choice([5, 40, 95, 104, 130, 230, 330] if prop == 'C05' else [0, 3, 60, 100, 101, 140, 260, 420])
-        c, ops = build_collection(rng, n, dim, q, metric, rng.choice([0, 0, 11]), churn=(40 if prop == 'C05' else 10) if n else 0)
+        scenario = None
+        if ci < 2 or rng.random() < 0.1:
+            # the first two collections of every run are the dedicated scenarios
+            scenario = ('refill', 'same_vector')[ci % 2] if ci < 2 else rng.choice(['refill', 'same_vector'])
+            n = rng.choice([6, 12, 30])
+        stats['scenarios'] = stats.get('scenarios', 0) + (1 if scenario else 0)
+        c, ops = build_collection(rng, n, dim, q, metric, rng.choice([0, 0, 11]), churn=((40 if prop == 'C05' else 10) if n else 0) if not scenario else 0, scenario=scenario)
         c.cmds.append('docs')
         c.cmds.append('forest')
         searches = []
@@ -298,7 +332,7 @@ def check(prop, tier, seed, replay=None):
         elif broken:
             chk.violation({'engine': 'proof', 'unproved': broken, 'what': 'a proof obligation no longer checks; no failing input found'}, tag='proof', no_input=True)
     chk.cov.update({'programs': stats['collections'], 'evaluations': stats['operations'] + stats['searches'], 'distinct_nontrivial': stats['operations'] + stats['searches'],
-                    'rule': 'collections of 0..420 documents (below and above the leaf threshold of 100; equal vectors and zero vectors that defeat splits), all quantisations, both metrics, seeded and unseeded random source, followed by churn (remove, overwrite with another vector, update, reopen, remove everything then refill); the forest is dumped after every operation; searches with K, radius, covering radius, filters, queries equal to stored vectors',
+                    'rule': 'collections of 0..420 documents (below and above the leaf threshold of 100; equal vectors and zero vectors that defeat splits), all quantisations, both metrics, seeded and unseeded random source, followed by churn (remove, overwrite with another vector, update, reopen, remove everything then refill; two dedicated scenarios in every run: empty-then-refill without reopening, and rewrite-with-the-same-vector then remove); the forest is dumped after every operation; searches with K, radius, covering radius, filters, queries equal to stored vectors',
                     'disagreements_checked': stats['searches'] + stats['steps_checked_in_model'], 'samples': samples, 'distribution': stats,
                     'correspondence': 'model and implementation agree' if corr is None else 'DIVERGED', 'proof_obligations_broken': broken})
     chk.assumptions = [NOTE]
